@@ -14,7 +14,7 @@ LEVEL = "exploration"
 EXHAUSTIVE = False
 RULE = ("case = random field layout (0-2 levels of inheritance or a diamond B <- C, E <- F(C, E) with a root field re-declared by either sibling, overridden defaults, required/defaulted/factory/"
         "kw_only/KW_ONLY/init=False/InitVar/ClassVar members, converted field types, aliases with and without "
-        "allow_deserialization_not_by_alias, slots/frozen, mixin or plain-through-codec); for every layout ALL "
+        "allow_deserialization_not_by_alias, slots/frozen, mixin or plain-through-codec or plain as the field of a later holder after an ancestor was compiled as a nested type); for every layout ALL "
         "subsets of its init keys (<= 2^8) are fed to from_dict, poison values planted under non-init names. Oracle: "
         "field == converted input iff key present (explicit None included) else default / fresh factory result not "
         "shared between two results; MissingField names the first missing field in declaration order. "
@@ -206,6 +206,27 @@ def run_case(seed, tier, rec, st):
             raise
         cls = fam.get(names[-1])
         dec = cls.from_dict if mixin else BasicDecoder(cls).decode
+        via_holder = (not mixin) and nbodies >= 2 and rng.random() < 0.5
+        if via_holder:
+            # history: an ancestor was compiled as a nested field type first, the class itself is used later in another
+            # holder; it is still the class's own field table that is read
+            from mashumaro.exceptions import InvalidFieldValue
+            anc = rng.choice(names[:-1])
+            fam.exec_src(f"@dataclass\nclass HP(DataClassDictMixin):\n    p: Optional[{anc}] = None\n    ps: List[{anc}] = field(default_factory=list)\n")
+            try:
+                fam.module.HP.from_dict({"p": {}, "ps": [{}]})
+            except Exception:
+                pass
+            fam.exec_src(f"@dataclass\nclass HL(DataClassDictMixin):\n    q: {names[-1]}\n")
+            HL = fam.module.HL
+
+            def dec(d, HL=HL):
+                try:
+                    return HL.from_dict({"q": d}).q
+                except InvalidFieldValue as e:
+                    if isinstance(e.__context__, MissingField):
+                        raise e.__context__
+                    raise
         # effective field table, the stdlib rule: every dataclass of the reversed MRO contributes its COMPLETE field
         # table (inherited members included), then the class's own members replace in place.  In a diamond
         # F(C, E) a root field re-declared by E only is therefore the root's again (C's inherited view comes last).
@@ -228,7 +249,7 @@ def run_case(seed, tier, rec, st):
             return
         init_fields = [n for n in order if spec[n]["role"] in ("req", "def", "fac", "kwreq", "kwdef")]
         nonit = [n for n in order if spec[n]["role"] in ("noinit", "initvar", "classvar")]
-        layout_sig = tuple((spec[n]["role"], spec[n]["tk"], bool(spec[n].get("alias"))) for n in order) + (allow, mixin, dc_args, diamond)
+        layout_sig = tuple((spec[n]["role"], spec[n]["tk"], bool(spec[n].get("alias"))) for n in order) + (allow, mixin, dc_args, diamond, via_holder)
         sampled = False
         for mask in itertools.product([False, True], repeat=len(init_fields)):
             rec.evaluation()
@@ -269,7 +290,7 @@ def run_case(seed, tier, rec, st):
                     # attribute found along the MRO, which need not be the default of the winning Field)
                     exp[name] = getattr(cls, name) if diamond else spec[name]["default"]
             det = lambda **kw: dict({"source": "\n".join(src), "input": common.short(d, 400), "present": [n for p, n in zip(mask, init_fields) if p]}, **kw)
-            facts = {"allow_not_by_alias": allow, "levels": levels, "override": bool(overrides), "diamond": diamond}
+            facts = {"allow_not_by_alias": allow, "levels": levels, "override": bool(overrides), "diamond": diamond, "via_holder_after_ancestor": via_holder}
             try:
                 r = dec(dict(d))
                 r2 = dec(dict(d))
